@@ -101,6 +101,7 @@ int main(int argc, char **argv)
   std::vector<PayloadEntry> ps = {entry_int(), entry_string(), entry_tracked(), entry_doubleoff(), entry_trackedoff()};
 
   if (vr::replaying()) {
+    reexec_symbolized(argv);
     const std::string r = vr::S().replay;
     int rc = 2;
     if (r.compare(0, 4, "env:") == 0) {
@@ -137,11 +138,13 @@ int main(int argc, char **argv)
     if (std::string(p.name).find('@') == std::string::npos || std::string(p.name) == "double@off")
       p.statics();
     p.explore(depth, depth >= 5 ? 3 : 2);
+    partial_merge();
     vr::note(std::string("payload ") + p.name + ": depth " + std::to_string(depth) + ", " + std::to_string(vr::S().stats["states"] - before) +
-        " histories (not counting those lost... none: crashed cases flush their shard's counts), " + std::to_string((int)(vr::now_s() - t0)) + " s");
+        " histories, " + std::to_string((int)(vr::now_s() - t0)) + " s");
   }
   if (only.empty())
     env_all();
   partial_merge();
+  partial_cleanup();
   return vr::finish();
 }
